@@ -5,4 +5,4 @@ Extraction Language OCaml.
 Extraction "c07_model.ml"
   Z.add Z.mul Z.opp Z.sub Z.div_eucl Z.of_N Z.to_N N.add N.mul N.div_eucl Z.eqb Z.ltb
   is_secondary key_of init exec run mon0 mon_upd mon_run chk_outcome chk_uniq chk_recip chk_C06 ok_C06
-  chk_gate chk_inbound chk_C07 ok_C07 frame_eqb.
+  chk_gate chk_declared chk_inbound chk_C07 ok_C07 frame_eqb.
